@@ -34,15 +34,37 @@ let rle (cells : int list) =
     go (List.hd cells) 1 (List.tl cells);
     Buffer.contents b
 
-let rec split_at n l acc = if n = 0 then (List.rev acc, l) else match l with [] -> (List.rev acc, []) | x :: t -> split_at (n - 1) t (x :: acc)
+(* memory is a list of chunks (coq/theories/Sections/ChunkModel.v; `flat (copy_flat_c ..) = copy_flat .. (flat ..)` is proved in
+   ChunkProofs.v): runs (value, count) of a chunk list, cut at n cells, adjacent equal runs merged *)
+let runs_of (m : M.chunk list) : (int * int) list =
+  List.concat_map (function
+    | M.Fill (v, k) -> let k = Z.to_int (z_of_cz k) in if k > 0 then [ (Z.to_int (z_of_cz v), k) ] else []
+    | M.Bytes l -> List.map (fun c -> (Z.to_int (z_of_cz c), 1)) l) m
 
-let image n (mem : M.z list) =
-  let cells = List.map (fun c -> Z.to_int (z_of_cz c)) mem in
-  let (inside, rest) = split_at n cells [] in
-  let ok = List.length inside = n && List.length rest = guard && List.for_all (fun c -> c = 0xEE) rest in
-  rle inside ^ (if ok then ":g1" else ":g0")
+let rec cut n = function
+  | [] -> ([], [])
+  | (v, k) :: t ->
+    if n <= 0 then ([], (v, k) :: t)
+    else if k <= n then let (a, b) = cut (n - k) t in ((v, k) :: a, b)
+    else ([ (v, n) ], (v, k - n) :: t)
 
-let fresh_mem n = List.init n (fun _ -> c_cd) @ List.init guard (fun _ -> c_ee)
+let rle_runs (rs : (int * int) list) =
+  let rec merge = function
+    | (v1, k1) :: (v2, k2) :: t when v1 = v2 -> merge ((v1, k1 + k2) :: t)
+    | x :: t -> x :: merge t
+    | [] -> [] in
+  match merge rs with
+  | [] -> "-"
+  | ms -> String.concat "," (List.map (fun (v, k) -> Printf.sprintf "%d*%d" v k) ms)
+
+let total rs = List.fold_left (fun a (_, k) -> a + k) 0 rs
+
+let image n (m : M.chunk list) =
+  let (inside, rest) = cut n (runs_of m) in
+  let ok = total inside = n && total rest = guard && List.for_all (fun (v, _) -> v = 0xEE) rest in
+  rle_runs inside ^ (if ok then ":g1" else ":g0")
+
+let fresh_mem n = [ M.Fill (c_cd, cz_of_int n); M.Fill (c_ee, cz_of_int guard) ]
 
 let () =
   try
@@ -54,6 +76,7 @@ let () =
       let emit s = (if Buffer.length out > 0 then Buffer.add_char out ' '); Buffer.add_string out s in
       let st = ref { M.jh = M.init_holder; jtab = None; jaddrs = [] } in
       let huge = ref false in
+      let calls = ref [] in           (* (position in .text, absolute target) of every emitted `call abs`, in order *)
       (try
         while !toks <> [] do
           match next () with
@@ -66,6 +89,17 @@ let () =
             let (e, h') = M.new_section !st.M.jh name al ord in
             st := { !st with M.jh = h' };
             (match e with M.EOk -> emit (Printf.sprintf "N:ok:%d" id) | _ -> emit ("N:" ^ err_name e))
+          | "Ns" ->
+            let buf = unhex (next ()) in
+            let al = cz_of_string (next ()) in
+            let ord = cz_of_string (next ()) in
+            let id = List.length !st.M.jh in
+            let (e, h') = M.new_section_cstr !st.M.jh buf al ord in
+            st := { !st with M.jh = h' };
+            (match e with M.EOk -> emit (Printf.sprintf "N:ok:%d" id) | _ -> emit ("N:" ^ err_name e))
+          | "Bs" ->
+            (match M.section_by_name_cstr !st.M.jh (unhex (next ())) with
+             | Some id -> emit ("B:" ^ string_of_cz id) | None -> emit "B:-")
           | "Z" ->
             let id = cz_of_string (next ()) in
             let bs = Z.of_string (next ()) in
@@ -97,7 +131,7 @@ let () =
             if !huge || Z.gt n max_dst then emit "P:unsafe"
             else begin
               let n = Z.to_int n in
-              let (e, mem') = M.copy_flat !st.M.jh (fresh_mem n) (cz_of_int n) (fl land 1 <> 0) (fl land 2 <> 0) in
+              let (e, mem') = M.copy_flat_c !st.M.jh (fresh_mem n) (cz_of_int n) (fl land 1 <> 0) (fl land 2 <> 0) in
               emit ("P:" ^ err_name e ^ ":" ^ image n mem')
             end
           | "Q" ->
@@ -107,30 +141,44 @@ let () =
             if !huge || Z.gt n max_dst then emit "Q:unsafe"
             else begin
               let n = Z.to_int n in
-              let (e, mem') = M.copy_section !st.M.jh (fresh_mem n) (cz_of_int n) id (fl land 1 <> 0) in
+              let (e, mem') = M.copy_section_c !st.M.jh (fresh_mem n) (cz_of_int n) id (fl land 1 <> 0) in
               emit ("Q:" ^ err_name e ^ ":" ^ image n mem')
             end
           | "J" ->
             if !huge then emit "J:unsafe"
             else begin
-              let (((e, size), img), h') = M.jit_add !st.M.jh c_cd in
-              st := { !st with M.jh = h' };
-              match e with
-              | M.EOk -> emit ("J:ok:" ^ string_of_cz size ^ ":" ^ rle (List.map (fun c -> Z.to_int (z_of_cz c)) img))
-              | _ -> emit ("J:" ^ err_name e)
+              if !calls = [] then begin
+                let (((e, size), img), h') = M.jit_add_c !st.M.jh c_cd in
+                st := { !st with M.jh = h' };
+                match e with
+                | M.EOk -> emit ("J:ok:" ^ string_of_cz size ^ ":" ^ rle_runs (runs_of img))
+                | _ -> emit ("J:" ^ err_name e)
+              end else begin
+                (* all targets are farther than 2^31 from any place the allocator can return: the image does not depend on the base *)
+                let (((e, size), img), h') = M.jit_add_reloc !st !calls (cz_of_string "139637976727552") c_cd in
+                st := { !st with M.jh = h' };
+                match e with
+                | M.JOk -> emit ("J:ok:" ^ string_of_cz size ^ ":" ^ rle_runs (runs_of img))
+                | M.JLayout e -> emit ("J:" ^ err_name e)
+                | M.JReloc _ -> emit "J:ERELOC"
+              end
             end
           | "K" ->
             let a = cz_of_string (next ()) in
-            let len = cz_of_string (next ()) in
-            st := M.emit_call !st a len;
+            ignore (next ());
+            let pos = (match M.by_id !st.M.jh (cz_of_int 0) with Some t -> t.M.sbsize | None -> cz_of_int 0) in
+            calls := !calls @ [ (pos, a) ];
+            st := M.emit_call_bytes !st a;
             (match M.by_id !st.M.jh (cz_of_int 0) with
              | Some t -> emit ("K:ok:" ^ string_of_cz t.M.sbsize) | None -> emit "K:?")
           | "X" ->
+            let base = cz_of_string (next ()) in
             ignore (next ());
-            let used = cz_of_string (next ()) in
-            let (st', r) = M.relocate_tail !st used in
-            st := st';
-            emit ("X:ok:" ^ string_of_cz r)
+            (match M.relocate_holder !st.M.jh !st.M.jtab !calls base with
+             | M.Inl (h2, r) -> st := { !st with M.jh = h2 }; emit ("X:ok:" ^ string_of_cz r)
+             | M.Inr M.RInvalidEntry -> emit "X:ERELOC"
+             | M.Inr M.ROutOfRange -> emit "X:ERANGE"
+             | M.Inr M.RExprUnbound -> emit "X:EEXPR")
           | op -> emit ("BAD:" ^ op)
         done
       with Failure m -> emit ("BAD:" ^ m));
